@@ -109,3 +109,10 @@ func E2(ctx context.Context, hasCtx bool, fixed, variadic []types.MalType) (type
 	}
 	return Cur.Val, nil
 }
+
+// ValErr carries the VALUE of a two-result function whose value result is DECLARED as `error` (like core's
+// new-go-error: func(string) (error, error)); the harness unwraps it before rendering, so the case reads like any
+// (value, error) shape: the binder must map results by POSITION, not by declared type.
+type ValErr struct{ V types.MalType }
+
+func (ValErr) Error() string { return "a value whose declared type is error" }
